@@ -2,6 +2,7 @@ import Driver.Parse
 import RTA.Model.XCurve
 import RTA.Model.Ros
 import RTA.Model.XCost
+import RTA.Spec.Naive
 /-! Line-protocol driver: one operation per input line, one result per output line. -/
 
 namespace RTA.Driver
@@ -225,6 +226,83 @@ def pWorkload : Parser (Option (List Callback) × List Nat) := fun ts => do
 
 def wlOk (wl : List Callback) : Bool := wl.all fun cb => decide cb.arr.WF
 
+/-- `nv_<op>`: the same input evaluated by the naive Spec (`RTA/Spec/Naive.lean`) -/
+def evalNaive : List String → Option String
+  | "nv_fifo" :: ts => do
+    let (r, ts) ← pRB ts
+    let (lim, _) ← pNat ts
+    pure (match r with | some r => guardRBs [r] fun _ => Spec.naiveFifo r lim | none => "panic")
+  | "nv_fp_p" :: ts => do
+    let (tua, ts) ← pRB ts
+    let (others, ts) ← pRBList ts
+    let (lim, _) ← pNat ts
+    pure (match tua, others with
+      | some tua, some others => guardRBs (tua :: others) fun _ => Spec.naiveFp tua others 0 0 lim
+      | _, _ => "panic")
+  | "nv_fp_np" :: ts => do
+    let (a, ts) ← pArr ts
+    let (c, ts) ← pNat ts
+    let (b, ts) ← pNat ts
+    let (others, ts) ← pRBList ts
+    let (lim, _) ← pNat ts
+    pure (match a, others with
+      | some a, some others => guardRBs (.rbf a (.scalar c) :: others) fun _ => Spec.naiveFp (.rbf a (.scalar c)) others b (c - 1) lim
+      | _, _ => "panic")
+  | "nv_fp_lp" :: ts => do
+    let (a, ts) ← pArr ts
+    let (c, ts) ← pNat ts
+    let (last, ts) ← pNat ts
+    let (b, ts) ← pNat ts
+    let (others, ts) ← pRBList ts
+    let (lim, _) ← pNat ts
+    pure (match a, others with
+      | some a, some others => guardRBs (.rbf a (.scalar c) :: others) fun _ => Spec.naiveFp (.rbf a (.scalar c)) others b (last - 1) lim
+      | _, _ => "panic")
+  | "nv_fp_fl" :: ts => do
+    let (tua, ts) ← pRB ts
+    let (b, ts) ← pNat ts
+    let (others, ts) ← pRBList ts
+    let (lim, _) ← pNat ts
+    pure (match tua, others with
+      | some tua, some others => guardRBs (tua :: others) fun _ => Spec.naiveFp tua others b 0 lim
+      | _, _ => "panic")
+  | "nv_edf_p" :: ts => do
+    let (tua, ts) ← pRB ts
+    let (d, ts) ← pNat ts
+    let (os, ts) ← pList (pPair pRB pNat) ts
+    let (lim, _) ← pNat ts
+    pure (match tua, (os.mapM fun (r, dd) => r.map fun r => ({ rb := r, D := dd, seg := 0 } : EdfTask)) with
+      | some tua, some others => guardRBs (tua :: others.map (·.rb)) fun _ => Spec.naiveEdf tua d others 0 false lim
+      | _, _ => "panic")
+  | "nv_edf_np" :: ts => do
+    let (a, ts) ← pArr ts
+    let (c, ts) ← pNat ts
+    let (d, ts) ← pNat ts
+    let (os, ts) ← pList (pPair pArr (pPair pNat pNat)) ts
+    let (lim, _) ← pNat ts
+    pure (match a, (os.mapM fun (ao, (co, dd)) => ao.map fun ao => ({ rb := .rbf ao (.scalar co), D := dd, seg := co } : EdfTask)) with
+      | some a, some others => guardRBs (.rbf a (.scalar c) :: others.map (·.rb)) fun _ => Spec.naiveEdf (.rbf a (.scalar c)) d others (c - 1) true lim
+      | _, _ => "panic")
+  | "nv_edf_lp" :: ts => do
+    let (a, ts) ← pArr ts
+    let (c, ts) ← pNat ts
+    let (d, ts) ← pNat ts
+    let (last, ts) ← pNat ts
+    let (os, ts) ← pList (pPair pRB (pPair pNat pNat)) ts
+    let (lim, _) ← pNat ts
+    pure (match a, (os.mapM fun (r, (dd, seg)) => r.map fun r => ({ rb := r, D := dd, seg := seg } : EdfTask)) with
+      | some a, some others => guardRBs (.rbf a (.scalar c) :: others.map (·.rb)) fun _ => Spec.naiveEdf (.rbf a (.scalar c)) d others (last - 1) true lim
+      | _, _ => "panic")
+  | "nv_edf_fl" :: ts => do
+    let (tua, ts) ← pRB ts
+    let (d, ts) ← pNat ts
+    let (os, ts) ← pList (pPair pRB (pPair pNat pNat)) ts
+    let (lim, _) ← pNat ts
+    pure (match tua, (os.mapM fun (r, (dd, seg)) => r.map fun r => ({ rb := r, D := dd, seg := seg } : EdfTask)) with
+      | some tua, some others => guardRBs (tua :: others.map (·.rb)) fun _ => Spec.naiveEdf tua d others 0 true lim
+      | _, _ => "panic")
+  | _ => none
+
 def evalAnalysis : List String → Option String
   | "fifo" :: ts => do
     let (r, ts) ← pRB ts
@@ -356,7 +434,9 @@ def evalLine (line : String) : String :=
   | some r => r
   | none => match evalAnalysis toks with
     | some r => r
-    | none => "bad-op"
+    | none => match evalNaive toks with
+      | some r => r
+      | none => "bad-op"
 
 partial def loop (h : IO.FS.Stream) (out : IO.FS.Stream) : IO Unit := do
   let line ← h.getLine
